@@ -139,8 +139,8 @@ Theorem C16_setdesktopsize_others : forall hookres c,
   cNewFBPending c1 = cNewFBPending c /\ cLastErr c1 = cLastErr c.
 Proof. exact setdesktop_other. Qed.
 
-(* the update that IMMEDIATELY follows a refusal carries it (per-step fact; the history-level statement
-   "a client's own request is answered" is refuted below: F31) *)
+(* the update that IMMEDIATELY follows a refusal carries it (per-step fact; other clients' requests in
+   between leave the record alone: C16_own_request_answered below) *)
 Theorem C16_setdesktopsize_refusal_next_send : forall st hookres c,
   hookres <> 0 -> cUseExt c = true -> cUseNewFB c = true -> cScaled c = None ->
   exists c2, send_client st (setdesktop_one true hookres c) =
@@ -148,15 +148,21 @@ Theorem C16_setdesktopsize_refusal_next_send : forall st hookres c,
              cNewFBPending c2 = false /\ cReqChange c2 = 0 /\ cLastErr c2 = 0.
 Proof. exact setdesktop_refusal_sent. Qed.
 
-(* F31 (open): between a refusal and the update that would carry it another client's request is accepted:
-   the refused client is told "other client" with its own status 3 - its request is never answered.
-   The full statement (C16_own_request_answered: the reason/status of a client whose own answer is pending
-   survives every operation of the other clients) is in notes/fix_C16_4_model.diff, valid with notes/fix_C16_4.diff *)
-Theorem C16_own_request_answered_refuted :
+(* F31 (fixed by fix_C16_4): the reason / status / pending flag of a client whose own answer has not been sent
+   yet survive every SetDesktopSize of any other client, accepted or refused - together with
+   C16_setdesktopsize_refusal_next_send (which holds for the unchanged record) the client's next size
+   message is the answer to its own request *)
+Theorem C16_own_request_answered : forall st n m w h ns hookres st' out c,
+  n <> m -> nth_error (sClients st) n = Some c -> cReqChange c = c16_reason_client ->
+  step st (OpSetDesktopSize m w h ns hookres) = Some (st', out) ->
+  nth_error (sClients st') n = Some c.
+Proof. exact (fun st n m w h ns hookres st' out c => own_request_survives st n m w h ns hookres st' out c eq_refl). Qed.
+
+(* the former witness of F31: refused (status 3), then the other client is accepted: told "this client", 3 *)
+Theorem C16_own_request_answered_witness :
   exists st st', run (init_state 12 8 4) f31_ops = Some st /\ Inv st /\
-    step st (OpTick 0) = Some (st', [(0%nat, (1, [WExt c16_reason_other 3 12 8]))]) /\
-    c16_reason_other <> c16_reason_client.
-Proof. exact refusal_answered_refuted. Qed.
+    step st (OpTick 0) = Some (st', [(0%nat, (1, [WExt c16_reason_client 3 12 8]))]).
+Proof. exact refusal_answered_witness. Qed.
 
 (* scaled screens (only their size bookkeeping is in the model): since fix_C16_2 rfbNewFramebuffer rebuilds
    the scaledScreenNext chain for the new framebuffer; the former F12 witness now tells the client 12x8 *)
